@@ -42,6 +42,7 @@ struct Cell {
 };
 
 bool g_on = false;
+bool g_atomic_yield = false;   // every atomic operation of instrumented code is a scheduling point (rd_atomic_yield)
 VC g_vc[MAXT];
 std::map<const void *, VC> g_sync;        // mutexes, atomics
 VC g_final[MAXT];
@@ -140,6 +141,10 @@ void access(uintptr_t addr, size_t size, bool is_write, uintptr_t pc, bool atomi
     }
 }
 
+void atomic_point() {
+    if (g_atomic_yield && live() && !tl_busy) vs::yield("atomic");
+}
+
 void clear_range(uintptr_t a, size_t n) {
     if (g_shadow.empty()) return;
     Busy busy;
@@ -234,6 +239,7 @@ int rd_report(int i, char *buf, int n) {
                     stack(r.c2).c_str());
 }
 void rd_ignore(int delta) { rd::tl_ignore += delta; }
+void rd_atomic_yield(int on) { rd::g_atomic_yield = on != 0; }
 
 // ---- the tsan ABI the instrumented objects call -----------------------------------------------------
 #define PC ((uintptr_t) __builtin_return_address(0))
@@ -275,40 +281,47 @@ void __tsan_vptr_read(void **vptr) { rd::access((uintptr_t) vptr, 8, false, PC);
 // race with each other (a plain access racing with an atomic one is still reported)
 #define ATOMIC_OPS(N, T)                                                                                      \
     T __tsan_atomic##N##_load(const volatile T *a, int mo) {                                                  \
+        rd::atomic_point();                                                                                   \
         rd::access((uintptr_t) a, sizeof(T), false, PC, true);                                                \
         if (mo != 0) rd_acquire((const void *) a); /* a relaxed load synchronises with nothing */            \
         return __atomic_load_n(a, __ATOMIC_SEQ_CST);                                                          \
     }                                                                                                         \
     void __tsan_atomic##N##_store(volatile T *a, T v, int mo) {                                               \
+        rd::atomic_point();                                                                                   \
         rd::access((uintptr_t) a, sizeof(T), true, PC, true);                                                 \
         if (mo != 0) rd_release((const void *) a);                                                            \
         __atomic_store_n(a, v, __ATOMIC_SEQ_CST);                                                             \
     }                                                                                                         \
     T __tsan_atomic##N##_exchange(volatile T *a, T v, int) {                                                  \
+        rd::atomic_point();                                                                                   \
         rd::access((uintptr_t) a, sizeof(T), true, PC, true);                                                 \
         rd_acquire((const void *) a);                                                                         \
         rd_release((const void *) a);                                                                         \
         return __atomic_exchange_n(a, v, __ATOMIC_SEQ_CST);                                                   \
     }                                                                                                         \
     T __tsan_atomic##N##_fetch_add(volatile T *a, T v, int) {                                                 \
+        rd::atomic_point();                                                                                   \
         rd::access((uintptr_t) a, sizeof(T), true, PC, true);                                                 \
         rd_acquire((const void *) a);                                                                         \
         rd_release((const void *) a);                                                                         \
         return __atomic_fetch_add(a, v, __ATOMIC_SEQ_CST);                                                    \
     }                                                                                                         \
     T __tsan_atomic##N##_fetch_sub(volatile T *a, T v, int) {                                                 \
+        rd::atomic_point();                                                                                   \
         rd::access((uintptr_t) a, sizeof(T), true, PC, true);                                                 \
         rd_acquire((const void *) a);                                                                         \
         rd_release((const void *) a);                                                                         \
         return __atomic_fetch_sub(a, v, __ATOMIC_SEQ_CST);                                                    \
     }                                                                                                         \
     int __tsan_atomic##N##_compare_exchange_strong(volatile T *a, T *e, T d, int, int) {                      \
+        rd::atomic_point();                                                                                   \
         rd::access((uintptr_t) a, sizeof(T), true, PC, true);                                                 \
         rd_acquire((const void *) a);                                                                         \
         rd_release((const void *) a);                                                                         \
         return __atomic_compare_exchange_n(a, e, d, false, __ATOMIC_SEQ_CST, __ATOMIC_SEQ_CST);               \
     }                                                                                                         \
     int __tsan_atomic##N##_compare_exchange_weak(volatile T *a, T *e, T d, int, int) {                        \
+        rd::atomic_point();                                                                                   \
         rd::access((uintptr_t) a, sizeof(T), true, PC, true);                                                 \
         rd_acquire((const void *) a);                                                                         \
         rd_release((const void *) a);                                                                         \
